@@ -56,7 +56,7 @@ CHECKS = {
    ref="§4-C08"),
  "C05": dict(
    engine="node", category="model_checking", technique="TLA+ spec CrashRecovery.tla (durable operations in measured program order, recovery as implemented) model-checked by TLC; every crash point replayed as a real kill/restart of a validator running the real receiveRoutine, file WAL and stores; restart outcome compared with the specification",
-   text="CrashRecovery.tla has one action per durable operation of a validator in the order measured on the real code (own vote WAL fsyncs, SaveBlock, #ENDHEIGHT, writeBlockWithState, trie flush, writeHead, consensus-state batch) and the recovery as implemented (head repair, Store.Load or genesis, catchupReplay iff #ENDHEIGHT(h-1) and not #ENDHEIGHT(h)); TLC checks store consistency for every crash point in both cache modes and lists what the restart computes and where published votes are left unprotected. The harness kills a REAL validator (real receiveRoutine under the gate, real file WAL, counting database) before EVERY durable operation of a 3-height run (about 65 cuts x 2 WAL tail variants x 2 cache modes), restarts it on the surviving files through NewBlockChain / Store.Load / OnStart and lets it continue against the live network: it must start, its stored blocks must be the committed ones, no post-restart signature request may conflict with a pre-crash published message, it must catch up, and the restart's head / consensus state must be what the specification computes for that crash point. Conflicts are accepted as KNOWN only in the recorded design-level windows (after #ENDHEIGHT; head rewound in memory mode).",
+   text="CrashRecovery.tla has one action per durable operation of a validator in the order measured on the real code (own vote WAL fsyncs, SaveBlock, #ENDHEIGHT, writeBlockWithState, trie flush, writeHead, consensus-state batch) and the recovery as implemented (head repair, Store.Load or genesis, catchupReplay iff #ENDHEIGHT(h-1) and not #ENDHEIGHT(h)); TLC checks store consistency for every crash point in both cache modes and lists what the restart computes and where published votes are left unprotected. The harness kills a REAL validator (real receiveRoutine under the gate, real file WAL, counting database) before EVERY durable operation of a 3-height run (about 65 cuts x 3 WAL tail variants — unsynced tail lost / survived / last record torn — x 2 cache modes), restarts it on the surviving files through NewBlockChain / Store.Load / OnStart and lets it continue against the live network: it must start, its stored blocks must be the committed ones, no post-restart signature request may conflict with a pre-crash published message, it must catch up, the WAL it leaves behind must decode to its end (torn tails repaired before appending), and the restart's head / consensus state must be what the specification computes for that crash point. Conflicts are accepted as KNOWN only in the recorded design-level windows (after #ENDHEIGHT; head rewound in memory mode).",
    note="Restart goes straight to consensus with WAL catch-up (fast sync off); honest, timely network after the restart; empty blocks; second crashes during recovery and WAL corruption at the tail are C15's / not enumerated here. Trusted: TLC, the driver's counting wrappers (a cut = the operation that did not happen).",
    ref="§4-C05"),
  "C17": dict(
